@@ -161,7 +161,7 @@ pub fn run(tier: Tier) -> Report {
         for d in domains_for(c, tier) {
             domain_desc.insert(format!("depth {}: {}", c.n, d.describe()), d.len());
             let total = d.len();
-            let acc = par_chunks(total, 1 << 16, |acc, lo, hi| {
+            let acc = par_chunks_varied(total, 1 << 16, |acc, lo, hi| {
                 let len = (hi - lo) as usize;
                 let (mut ys, mut us, mut vs) = (Vec::with_capacity(len), Vec::with_capacity(len), Vec::with_capacity(len));
                 for i in lo..hi {
